@@ -3,6 +3,7 @@
 -/
 import WB.Model.C03
 import WB.Lemmas.C06Sum
+import WB.Lemmas.C06Bridge
 import Mathlib.Data.Rat.Floor
 import Mathlib.Algebra.BigOperators.Group.Finset.Basic
 import Mathlib.Algebra.BigOperators.GroupWithZero.Action
@@ -207,38 +208,5 @@ theorem sum_factor3 (d f : Idx) (H : Nat → Nat → Nat → V) :
   exact sum_factor d.1 (fun a => ∑ b ∈ range (d.2.1 * f.2.1), ∑ c ∈ range (d.2.2 * f.2.2), H a b c) f.1
 
 end main
-
-/-! ### symmetric grids: the images of grid points stay on the grid -/
-
-theorem comp_on_grid (p1 p2 p3 d1 d2 d3 dj : Nat) (a b c : Int) (sg : Rat) (hsg : sg = 1 ∨ sg = -1)
-    (hd1 : 0 < d1) (hd2 : 0 < d2) (hd3 : 0 < d3)
-    (h1 : (a * dj) % (d1 : Int) = 0) (h2 : (b * dj) % (d2 : Int) = 0) (h3 : (c * dj) % (d3 : Int) = 0) :
-    ∃ z : Int, ((p1 : Rat) * (1 / d1) * a + (p2 : Rat) * (1 / d2) * b + (p3 : Rat) * (1 / d3) * c) * sg * dj = z := by
-  obtain ⟨k1, e1⟩ := Int.dvd_of_emod_eq_zero h1
-  obtain ⟨k2, e2⟩ := Int.dvd_of_emod_eq_zero h2
-  obtain ⟨k3, e3⟩ := Int.dvd_of_emod_eq_zero h3
-  have q1 : (a : Rat) * dj = d1 * k1 := by exact_mod_cast e1
-  have q2 : (b : Rat) * dj = d2 * k2 := by exact_mod_cast e2
-  have q3 : (c : Rat) * dj = d3 * k3 := by exact_mod_cast e3
-  have n1 : (d1 : Rat) ≠ 0 := by exact_mod_cast hd1.ne'
-  have n2 : (d2 : Rat) ≠ 0 := by exact_mod_cast hd2.ne'
-  have n3 : (d3 : Rat) ≠ 0 := by exact_mod_cast hd3.ne'
-  have key : ((p1 : Rat) * (1 / d1) * a + (p2 : Rat) * (1 / d2) * b + (p3 : Rat) * (1 / d3) * c) * dj =
-      ((p1 * k1 + p2 * k2 + p3 * k3 : Int) : Rat) := by
-    have : ((p1 : Rat) * (1 / d1) * a + (p2 : Rat) * (1 / d2) * b + (p3 : Rat) * (1 / d3) * c) * dj =
-        (p1 : Rat) * (1 / d1) * (a * dj) + (p2 : Rat) * (1 / d2) * (b * dj) + (p3 : Rat) * (1 / d3) * (c * dj) := by ring
-    rw [this, q1, q2, q3]
-    push_cast
-    field_simp
-  rcases hsg with rfl | rfl
-  · exact ⟨p1 * k1 + p2 * k2 + p3 * k3, by rw [mul_one]; exact key⟩
-  · refine ⟨-(p1 * k1 + p2 * k2 + p3 * k3), ?_⟩
-    have : ((p1 : Rat) * (1 / d1) * a + (p2 : Rat) * (1 / d2) * b + (p3 : Rat) * (1 / d3) * c) * (-1) * dj =
-        -(((p1 : Rat) * (1 / d1) * a + (p2 : Rat) * (1 / d2) * b + (p3 : Rat) * (1 / d3) * c) * dj) := by ring
-    rw [this, key]; push_cast; ring
-
-theorem sign_pm (s : Sym) : s.sign = 1 ∨ s.sign = -1 := by
-  unfold Sym.sign
-  cases s.tr <;> cases s.inv <;> simp
 
 end WB.C03
